@@ -6,7 +6,7 @@ CONSTANTS
   Modes = {"run"}
   ChainedSet = {TRUE, FALSE}
   Starts = {0, 2}
-  Targets = {0, 3, 4}
+  Targets = {0, 3}
   Corruptions <- NoCorruption
   NT = 1
   FollowRetries = FALSE
